@@ -313,6 +313,31 @@ def _part_b(case: dict, env: core.Env) -> None:
     if d["desc"] != d1:
         env.witness(f"C06/describe-differs-from-description/{z['tag']}", f"{sql!r}: describe {d1} vs description {d['desc']}"[:900])
         return
+    # the same through a DictCursor; and a describe() that fails leaves the cursor what it was
+    dc = conn.cursor(core.DictCursor)
+    env.count("cmp_describe")
+    try:
+        d2 = [tuple(x) for x in dc.describe(sql)]
+        if d2 != d1:
+            env.witness("C06/describe-differs/dict-cursor-vs-tuple-cursor", f"{sql!r}: {d2} vs {d1}"[:600])
+    except Exception as e:  # noqa: BLE001
+        env.witness(f"C06/describe-raises/dict-cursor/{type(e).__name__}", f"DictCursor.describe({sql!r}): {e}"[:300])
+        return
+    try:
+        dc.describe("SELECT NO_SUCH_COLUMN_X FROM DB1.S1.PEOPLE")
+    except Exception:  # noqa: BLE001
+        pass
+    o = core.run_stmt(dc, "SELECT ID, NAME FROM DB1.S1.PEOPLE ORDER BY ID")
+    if o["ok"] and o["rows"] and not isinstance(o["rows"][0], dict):
+        env.witness("C06/dict-cursor-hands-out-tuples-after-failed-describe", f"{o['rows'][:2]}")
+    tc = conn.cursor()
+    try:
+        tc.describe("SELECT NO_SUCH_COLUMN_X FROM DB1.S1.PEOPLE")
+    except Exception:  # noqa: BLE001
+        pass
+    o = core.run_stmt(tc, "SELECT ID, NAME FROM DB1.S1.PEOPLE ORDER BY ID")
+    if o["ok"] and o["rows"] and not isinstance(o["rows"][0], tuple):
+        env.witness("C06/tuple-cursor-hands-out-dicts-after-failed-describe", f"{o['rows'][:2]}")
     env.nontrivial(("B", z["tag"]))
 
 
